@@ -22,7 +22,8 @@ EXPLANATION = (
     'R-C11.4 a rename updates both ends: RenameModel/RenameField remove the '
     'old signature entry and add the clone under the new name (and '
     'table_name for models); R-C11.5 RenameAppLabel moves the models into a '
-    'signature created with app_id = the new label.')
+    'signature created with app_id = the new label; '
+    'R-C11.6 ProjectSignature.get_app_sig resolves an app id by exact match before the legacy-label alias (shared with R-C15.5).')
 NOT_DECIDED = (
     'Absence of dangling references for all signatures and sequences; '
     'foreign-key validity in the database after the generated SQL.')
@@ -385,7 +386,18 @@ def r5_applabel_target(ctx):
                     'project signature', key='no-add-app-sig')
 
 
+def r6_exact_app_lookup(ctx):
+    """Every rename resolves the app it works on through
+    ProjectSignature.get_app_sig: an app whose *current* id is X must win
+    over another app whose *legacy* label is X, otherwise a RenameModel for
+    app X renames the model of the other app and rewrites references to the
+    wrong target (shared with R-C15.5)."""
+    from .c15 import r5_exact_lookup_first
+    r5_exact_lookup_first(ctx, rule_id='R-C11.6')
+
+
 def run(ctx):
+    r6_exact_app_lookup(ctx)
     r5_applabel_target(ctx)
     r1_reference_shape(ctx)
     r2_rewrite_loops(ctx)
